@@ -50,14 +50,14 @@ class Writer:
       try:
         fstr = self.field_to_s(fn, tag = False)
       except:
-        fstr = str(self.get(fn))
+        fstr = self._invalid_field_to_s(fn)
         errors.append(fn)
       a.append(fstr)
     for fn in self.tagnames:
       try:
         fstr = self.field_to_s(fn, tag = True)
       except:
-        fstr = str(self.get(fn))
+        fstr = self._invalid_field_to_s(fn)
         errors.append(fn)
       a.append(fstr)
     if self.virtual and add_virtual_commentary:
@@ -66,6 +66,17 @@ class Writer:
       a.append("# INVALID; errors found in fields: "+
           ",".join(errors))
     return a
+
+  def _invalid_field_to_s(self, fieldname):
+    """String to show for a field which cannot be written."""
+    try:
+      return str(self.get(fieldname))
+    except gfapy.Error:
+      raise
+    except Exception as err:
+      raise gfapy.FormatError(
+        "The content of field {} cannot be written\n".format(fieldname)+
+        "{}: {}".format(err.__class__.__name__, err)) from err
 
   def field_to_s(self, fieldname, tag = False):
     """
